@@ -7,7 +7,7 @@ from typing import Dict, List, Optional, Set, Tuple
 from ..calls import Resolver
 from ..cfg import CFG
 from ..core import AnalysisError, Report
-from ..effects import writes_in
+from ..effects import is_table, table_aliases, writes_in
 from ..model import Program
 
 TITLE = "Singletons stay singletons when constructed concurrently"
@@ -41,16 +41,17 @@ def with_lock_of(node: ast.AST, fn: ast.AST, locks: Set[str]) -> Optional[str]:
 def analyse_new(prog: Program, cls: str, locks: Set[str]) -> Tuple[bool, str, Dict[str, object]]:
     fi = prog.func(f"{cls}.__new__")
     fn = fi.node
+    al = table_aliases(fn)
     tests = [n for n in ast.walk(fn) if isinstance(n, ast.Compare) and len(n.ops) == 1 and isinstance(n.ops[0], (ast.In, ast.NotIn))
-             and ast.unparse(n.comparators[0]).endswith("._known")]
+             and is_table(n.comparators[0], al)]
     gets = [n for n in ast.walk(fn) if isinstance(n, ast.Call) and isinstance(n.func, ast.Attribute) and n.func.attr == "get"
-            and ast.unparse(n.func.value).endswith("._known")]
+            and is_table(n.func.value, al)]
     stores = [n for n in ast.walk(fn) if isinstance(n, ast.Assign)
-              and any(isinstance(t, ast.Subscript) and ast.unparse(t.value).endswith("._known") for t in n.targets)]
+              and any(isinstance(t, ast.Subscript) and is_table(t.value, al) for t in n.targets)]
     rebinds = [n for n in ast.walk(fn) if isinstance(n, (ast.Assign, ast.AugAssign))
                and any(isinstance(t, ast.Attribute) and t.attr == "_known" for t in (n.targets if isinstance(n, ast.Assign) else [n.target]))]
     setdefaults = [n for n in ast.walk(fn) if isinstance(n, ast.Call) and isinstance(n.func, ast.Attribute) and n.func.attr == "setdefault"
-                   and ast.unparse(n.func.value).endswith("._known")]
+                   and is_table(n.func.value, al)]
     facts = {"membership_tests": len(tests) + len(gets), "stores": len(stores), "rebinds": len(rebinds), "setdefaults": len(setdefaults)}
     if rebinds:
         return False, ("the intern table is replaced as a whole (`" + ast.unparse(rebinds[0])[:60] + "`): a read-copy-update without a "
